@@ -548,11 +548,23 @@ fn judge_env(report: &Report, fx_name: &str, devs: &BTreeMap<usize, Hostile>, o:
 /// Responder: every request kind x index x holding state is answered verifiably or with a NACK.
 fn responder_sweep(report: &Report, fx: &Fixture) -> usize {
     let mut cases = 0;
-    for state in ["held", "held-via-repair", "partial", "unknown"] {
+    for state in ["held", "held-via-repair", "held-after-an-unfinished-repair-of-the-same-block", "partial", "unknown"] {
         let (tx, _rx) = mpsc::channel(4096);
         let mut store = BlockstoreImpl::new(tx);
         match state {
             "held" => {
+                for set in &fx.block.shreds {
+                    for s in set.iter() {
+                        let _ = poll_once(store.add_shred_from_dissemination(s.clone()));
+                    }
+                }
+            }
+            "held-after-an-unfinished-repair-of-the-same-block" => {
+                // a repair of the block was started (two shreds filed under its hash), then the whole
+                // block arrived through dissemination: the node holds it
+                for s in fx.block.shreds[0].iter().skip(5).take(2) {
+                    let _ = poll_once(store.add_shred_from_repair(fx.block.hash.clone(), s.clone()));
+                }
                 for set in &fx.block.shreds {
                     for s in set.iter() {
                         let _ = poll_once(store.add_shred_from_dissemination(s.clone()));
@@ -619,7 +631,7 @@ fn responder_sweep(report: &Report, fx: &Fixture) -> usize {
                         continue;
                     }
                     let m: MResponse = to_mirror(&outs[0].0);
-                    let held = state == "held" || state == "held-via-repair";
+                    let held = state.starts_with("held");
                     let known_block = matches!(rq, MReqType::LastSliceRoot(b) | MReqType::SliceRoot(b, _) | MReqType::Shred(b, _, _) if b.hash == bid.hash);
                     let in_range = match rq {
                         MReqType::LastSliceRoot(_) => true,
